@@ -16,6 +16,14 @@ TABLE = [
      'eager/lazy loading; shipped whitelists against all 5^L queries (quick: 6-nt index list and the 8-nt DamID2 list; thorough: all '
      'shipped lists <=8 nt and the 10-nt DamID2 list).',
      'Whitelists are sets of equal-length ACGTN strings; geometry needing >3 barcodes is only covered through the shipped lists.'),
+    ('C09',
+     'bounded-exhaustive enumeration of fragment geometries on a known reference, each also as its mirror image on the reverse-complemented reference; simulator-truth + mirror-relation oracle on the real NlaIIIFragment / CHICFragment',
+     'Full product of strand x single/paired x soft clip 0..6 x motif variant (exact, all 16 single-base substitutions incl. N, '
+     'one-cycle shift, motif on the wrong end, two decoys) x allow_cycle_shift x check_motif x invert_strand x no_umi_cigar_processing '
+     '(NlaIII) and trimmed/untrimmed x clip x R2 arrangement x invert_strand (CHIC): 3008 geometries, each executed on both strands. '
+     'DS/RS/RZ/qcfail are compared with the simulated cut and with the mirrored twin.',
+     'no_overhang mode and BAM-level fetch are not covered; check_motif=False only with full-length motif geometries; '
+     'no_umi_cigar_processing only with unclipped reads.'),
 ]
 
 # id -> reason it is currently not claimed
